@@ -177,6 +177,15 @@ Theorem C15_references_pointwise : forall A (f : ref -> option A) l l', mload_ke
 Proof. exact @mload_keyed_pointwise. Qed.
 Print Assumptions C15_references_pointwise.
 
+(* Population / Connectivity circuits: there is no YAML representation.  Since fix D116 to_yaml refuses them, so the round
+   trip never yields a silently different circuit; before the fix the population was written as one plain node *)
+Theorem C15_populations_refused : pop_spec_ok (dump_populations fixed_populations_refused) = true.
+Proof. reflexivity. Qed.
+Print Assumptions C15_populations_refused.
+Theorem C15_populations_before_fix : pop_spec_ok (dump_populations false) = false.
+Proof. reflexivity. Qed.
+Print Assumptions C15_populations_before_fix.
+
 (* non-vacuity: a two-level circuit with a shared operator, the same override on every node, an edge template with
    an override and a top-level edge satisfies WFy, round-trips, and has 4 nodes; the replace theorem's hypotheses
    hold for the identifier r_in and the real delimiter set, on an equation containing r, rr, r_in and m_in2 *)
